@@ -521,6 +521,12 @@ func metaballSubject(rng *rand.Rand) *subject {
 	var hints []C3
 	for i := range ops {
 		ops[i] = randMetaball(rng)
+		if rng.Intn(6) == 0 {
+			// a caller's own metaball with a non-linear (but monotone) field
+			c := model3d.XYZ(rng.NormFloat64(), rng.NormFloat64(), rng.NormFloat64()).Scale(0.8)
+			b := &hWarp{c, 0.3 + rng.Float64(), []float64{0.5, 2, 3, 0.25}[rng.Intn(4)]}
+			ops[i] = mbOperand{b, b.MetaballField, []C3{c}, fmt.Sprintf("hWarp{C:%s R:%x P:%g}", f3(c), b.r, b.P)}
+		}
 		ms[i] = ops[i].m
 		desc += ops[i].desc + "; "
 		hints = append(hints, ops[i].hints...)
